@@ -7,6 +7,7 @@ import (
 	"fmt"
 	"math/rand"
 	"os"
+	"strings"
 	"time"
 )
 
@@ -18,6 +19,7 @@ type Summary struct {
 	Outs    map[string]int `json:"outcomes"`
 	Halted  string         `json:"halted"`
 	WallS   float64        `json:"wall_s"`
+	Notes   []string       `json:"notes,omitempty"`
 }
 
 func stdAccounts(n int) ([]*Account, map[string]int64) {
@@ -66,6 +68,22 @@ func main() {
 			sum = Summary{Steps: r.Steps, Ops: r.Ops, Outs: r.Outs, Halted: c.Halted}
 			c.Close()
 		default:
+			if strings.HasPrefix(*profile, "scenario:") {
+				fn, ok := scenarios[strings.TrimPrefix(*profile, "scenario:")]
+				if !ok {
+					panic("unknown scenario " + *profile)
+				}
+				accs, bal := stdAccounts(12)
+				c, err := NewChain(GenesisSpec{Accounts: accs, Balances: bal, NodeParams: DefaultNodeParams(), ValidatorIdx: []int{0}, ValSelfBond: 1000000}, time.Unix(1700000000, 0))
+				if err != nil {
+					panic(err)
+				}
+				r := NewRecorder(w, c)
+				fn(r, accs[1:])
+				sum = Summary{Steps: r.Steps, Ops: r.Ops, Outs: r.Outs, Halted: c.Halted, Notes: r.Notes}
+				c.Close()
+				break
+			}
 			panic("unknown profile " + *profile)
 		}
 		w.Flush()
